@@ -127,16 +127,30 @@ def fmt_int(I, v, bits, signed, radix, upper, f, alt_prefix=b''):
             ndig += 1
             p *= radix
         body = []
-        cur = e
-        rb = z3.BitVecVal(radix, bits)
-        for _ in range(ndig):
-            d = z3.Extract(7, 0, z3.URem(cur, rb))
-            if radix <= 10:
-                ch = d + z3.BitVecVal(0x30, 8)
-            else:
-                ch = z3.If(z3.ULT(d, z3.BitVecVal(10, 8)), d + z3.BitVecVal(0x30, 8), d + z3.BitVecVal((0x41 if upper else 0x61) - 10, 8))
-            body.append(Sym(z3.simplify(ch)))
-            cur = z3.UDiv(cur, rb)
+        if radix in (2, 8, 16):
+            sh = {2: 1, 8: 3, 16: 4}[radix]
+            for i in range(ndig):
+                lo_bit = i * sh
+                hi_bit = min(lo_bit + sh - 1, bits - 1)
+                d = z3.ZeroExt(8 - (hi_bit - lo_bit + 1), z3.Extract(hi_bit, lo_bit, e))
+                if radix <= 10:
+                    ch = d + z3.BitVecVal(0x30, 8)
+                else:
+                    ch = z3.If(z3.ULT(d, z3.BitVecVal(10, 8)), d + z3.BitVecVal(0x30, 8), d + z3.BitVecVal((0x41 if upper else 0x61) - 10, 8))
+                body.append(Sym(z3.simplify(ch)))
+        else:
+            # decimal digits without division: fresh digit variables d_i with  value == sum d_i * 10^i  (exact encoding)
+            W = bits + 8
+            tot = z3.BitVecVal(0, W)
+            for i in range(ndig):
+                dv = z3.BitVec('fd%d_%d' % (len(I.pc), i), 8)
+                I.add(z3.ULE(dv, z3.BitVecVal(9, 8)))
+                if i == ndig - 1 and ndig > 1:
+                    I.add(z3.UGE(dv, z3.BitVecVal(1, 8)))
+                tot = tot + z3.ZeroExt(W - 8, dv) * z3.BitVecVal(radix ** i, W)
+                body.append(Sym(dv + z3.BitVecVal(0x30, 8)))
+            I.add(z3.ZeroExt(8, e) == tot)
+            I.model = None
         body = body[::-1]
     prefix = b''
     if neg:
@@ -515,43 +529,56 @@ def digits_value(I, items, radix, bits, signed, allow_sign=True):
             return 'err', 'invalid'
     if pos == n:
         return 'err', 'invalid'
-    W = bits + 8
-    acc = None
-    accv = 0
-    sym = False
+    import math as _m
+    nd = n - pos
+    W = max(bits + 8, int(_m.ceil(nd * _m.log2(radix))) + 2)
     lim_hi = (1 << (bits - 1)) - 1 if signed else (1 << bits) - 1
     lim_neg = 1 << (bits - 1)
+    lim = lim_neg if neg else lim_hi
+    valid = []
+    vals = []
     for i in range(pos, n):
         b = items[i]
-        dv = None
-        if I.decide(in_range(I, b, 0x30, min(0x39, 0x30 + radix - 1))):
-            dv = (b - 0x30) if type(b) is not Sym else Sym(z3.ZeroExt(W - 8, b.e - z3.BitVecVal(0x30, 8)))
-        elif radix > 10 and I.decide(in_range(I, b, 0x41, 0x41 + radix - 11)):
-            dv = (b - 0x41 + 10) if type(b) is not Sym else Sym(z3.ZeroExt(W - 8, b.e - z3.BitVecVal(0x41 - 10, 8)))
-        elif radix > 10 and I.decide(in_range(I, b, 0x61, 0x61 + radix - 11)):
-            dv = (b - 0x61 + 10) if type(b) is not Sym else Sym(z3.ZeroExt(W - 8, b.e - z3.BitVecVal(0x61 - 10, 8)))
+        if type(b) is not Sym:
+            if 0x30 <= b <= min(0x39, 0x30 + radix - 1):
+                vals.append(b - 0x30)
+            elif radix > 10 and 0x41 <= b <= 0x41 + radix - 11:
+                vals.append(b - 0x41 + 10)
+            elif radix > 10 and 0x61 <= b <= 0x61 + radix - 11:
+                vals.append(b - 0x61 + 10)
+            else:
+                return 'err', 'invalid'
         else:
-            return 'err', 'invalid'
-        if type(dv) is Sym or sym:
-            if not sym:
-                acc = z3.BitVecVal(accv, W)
-                sym = True
-            d = dv.e if type(dv) is Sym else z3.BitVecVal(dv, W)
-            acc = acc * z3.BitVecVal(radix, W) + d
-            # overflow check after each digit (W = bits+8 is wide enough for one step)
-            lim = lim_neg if neg else lim_hi
-            if I.decide(Sym(z3.UGT(acc, z3.BitVecVal(lim, W)))):
-                return 'err', 'overflow'
-        else:
-            accv = accv * radix + dv
-            if accv > (lim_neg if neg else lim_hi):
-                return 'err', 'overflow'
-    if sym:
-        v = z3.Extract(bits - 1, 0, acc)
-        if neg:
-            v = -v
-        return 'ok', Sym(z3.simplify(v))
-    return 'ok', (-accv if neg else accv)
+            e = b.e
+            c_dig = z3.And(z3.UGE(e, z3.BitVecVal(0x30, 8)), z3.ULE(e, z3.BitVecVal(min(0x39, 0x30 + radix - 1), 8)))
+            v = z3.ZeroExt(W - 8, e - z3.BitVecVal(0x30, 8))
+            conds = [c_dig]
+            if radix > 10:
+                c_up = z3.And(z3.UGE(e, z3.BitVecVal(0x41, 8)), z3.ULE(e, z3.BitVecVal(0x41 + radix - 11, 8)))
+                c_lo = z3.And(z3.UGE(e, z3.BitVecVal(0x61, 8)), z3.ULE(e, z3.BitVecVal(0x61 + radix - 11, 8)))
+                v = z3.If(c_dig, v, z3.If(c_up, z3.ZeroExt(W - 8, e - z3.BitVecVal(0x41 - 10, 8)), z3.ZeroExt(W - 8, e - z3.BitVecVal(0x61 - 10, 8))))
+                conds += [c_up, c_lo]
+            valid.append(z3.Or(*conds))
+            vals.append(Sym(v))
+    if valid and not I.decide(Sym(z3.And(*valid) if len(valid) > 1 else valid[0])):
+        return 'err', 'invalid'
+    if all(type(v) is not Sym for v in vals):
+        accv = 0
+        for v in vals:
+            accv = accv * radix + v
+        if accv > lim:
+            return 'err', 'overflow'
+        return 'ok', (-accv if neg else accv)
+    acc = z3.BitVecVal(0, W)
+    for v in vals:
+        acc = acc * z3.BitVecVal(radix, W) + (v.e if type(v) is Sym else z3.BitVecVal(v, W))
+    acc = z3.simplify(acc)
+    if I.decide(Sym(z3.UGT(acc, z3.BitVecVal(lim, W)))):
+        return 'err', 'overflow'
+    v = z3.Extract(bits - 1, 0, acc)
+    if neg:
+        v = -v
+    return 'ok', Sym(z3.simplify(v))
 
 
 def int_error(kind):
